@@ -575,7 +575,7 @@ func gateShapes() []*script {
 
 // Run is the check.
 func Run(c *core.Ctx) {
-	c.Note("rule", "cascade scripts are data (per event kind a list of rules with priority, fail flag, yields and child events with priorities, incl. non-triggering children); an independent expansion gives the expected (event, rule) invocations and failures (respecting fail-on-first-error); the real engine runs them with harness closures as actions, 1..16 workers, 1..8 cascades in flight from separate goroutines; streams: 'gate' = 4 fixed shapes x 12 hold points x 13 partner points (one goroutine held at the hold point until another passed the partner point; infeasible pairs are released), 'noise' = seeded random scripts with random yields/sleeps at the lock-free hook points, also under -race; oracles: stamps of action ends vs. return of AddEventAndWait, exactly-once invocation table, AllErrors() at return time and again at quiescence vs. expected failures, finish-handler count, IsFinished of every monitor handed out, stuck-state predicate for a wait that cannot return; non-trivial/distinct = distinct interleaving signatures of the hook trace and feasible gate cases")
+	c.Note("rule", "cascade scripts are data (per event kind a list of rules with priority, fail flag, yields and child events with priorities, incl. non-triggering children); an independent expansion gives the expected (event, rule) invocations and failures (respecting fail-on-first-error); the real engine runs them with harness closures as actions, 1..16 workers, 1..8 cascades in flight from separate goroutines; streams: 'gate' = 4 fixed shapes x 12 hold points x 13 partner points (one goroutine held at the hold point until another passed the partner point; infeasible pairs are released), 'nested' = rule actions that wait for a nested cascade of their own (fan < workers) with a stuck predicate that accepts workers blocked in a nested wait, 'ecal' = the same scripts as ECAL sinks awaited with the built-in addEventAndWait, 'noise' = seeded random scripts with random yields/sleeps at the lock-free hook points, also under -race; oracles: stamps of action ends vs. return of AddEventAndWait, exactly-once invocation table, AllErrors() at return time and again at quiescence vs. expected failures, finish-handler count, IsFinished of every monitor handed out, stuck-state predicate for a wait that cannot return; non-trivial/distinct = distinct interleaving signatures of the hook trace and feasible gate cases")
 	shapes := gateShapes()
 	i := 0
 	for si, sh := range shapes {
@@ -603,6 +603,15 @@ func Run(c *core.Ctx) {
 		r := c.Rng("noise", k)
 		s := genScript(r)
 		runScenario(c, "noise", k, s, uint64(r.OneOf(0, 100, 300, 700)), r.U64(), nil)
+	}
+	n = c.Pick(400, 20000)
+	if c.Race {
+		n = c.Pick(100, 3000)
+	}
+	for k := 0; k < n; k++ {
+		if c.Take("nested", k) {
+			runNested(c, k)
+		}
 	}
 	n = c.Pick(600, 20000)
 	if c.Race {
